@@ -340,7 +340,7 @@ func glueBundle(r *Rng, n int, st *Stats) {
 						}
 					}
 				}
-				st.Fail("bundle-cascade-winner-changed", desc, detail["output_winner"], detail["input_winner"])
+				failC12(st, "bundle-cascade-winner-changed", desc, detail["output_winner"], detail["input_winner"])
 			}
 		}
 		st.Note("glue-bundle-cascade", inlined, len(inItems) > 2)
